@@ -14,6 +14,7 @@ import MagpyVerif.Lemmas.KernReal
 import MagpyVerif.Lemmas.KernelLiterals
 import MagpyVerif.Lemmas.KernAlgebra
 import MagpyVerif.Lemmas.SegmentBS
+import MagpyVerif.Lemmas.TrimeshSum
 namespace MagpyVerif.C13
 open MagpyVerif MagpyVerif.Kern
 
@@ -30,6 +31,13 @@ theorem sphere_outside_eq_dipole (d : ℝ) (pol x : V3 ℝ) (hout : |d| / 2 < Ke
   generalize Kern.norm x = r at *
   apply V3.ext' <;> simp [vs, vd, V3.dot] <;> field_simp <;> ring
 
+-- non-vacuity (audit): diameter 2, observer (0, 0, 2) is outside
+example : |(2 : ℝ)| / 2 < Kern.norm (⟨0, 0, 2⟩ : V3 ℝ) := by
+  have h : Kern.norm (⟨0, 0, 2⟩ : V3 ℝ) = 2 := by
+    simp only [Kern.norm, sqrt_real]
+    rw [show (0:ℝ) * 0 + 0 * 0 + 2 * 2 = 2 * 2 by ring, Real.sqrt_mul_self (by norm_num)]
+  rw [h]; norm_num
+
 
 /-- TriangularMesh and Tetrahedron report the sum of their triangle sheets as μ₀H and add the
 polarization inside for B (the `wrapH` dispatch): H of the body = H of the closed set of sheets -/
@@ -37,10 +45,32 @@ theorem mesh_H_is_sum_of_sheets (inside : Bool) (pol sheets : V3 ℝ) :
     wrapH .H inside pol sheets = vd sheets mu0R ∧
     wrapH .B inside pol sheets = sheets + (if inside then pol else zero3) := ⟨rfl, rfl⟩
 
+/-- (added by the audit) `mesh_H_is_sum_of_sheets` above is `⟨rfl, rfl⟩` about the dispatch function `wrapH`, which the mesh model
+does not even call.  This is the statement about the model that the driver runs (`Kern.bhjmTrimesh`, `trimesh` streams): for
+every batch, every row's output is `wrapH` of the sum of ITS triangle sheets with ITS inside verdict — i.e. μ₀H of a
+TriangularMesh is the sum over its Triangle sheets, B adds the polarization inside (inside test as a parameter). -/
+theorem trimesh_row_is_wrapH_of_sheets {M : Type} (f : Field) (meshId : MeshRow ℝ → M) (inside : M → V3 ℝ → Bool)
+    (r : MeshRow ℝ) :
+    bhjmTrimeshRow f meshId inside r = wrapH f (inside (meshId r) r.obs) r.pol (meshRowSheets r) := by
+  have h0 : (⟨0, 0, 0⟩ : V3 ℝ) + r.pol = r.pol := by apply V3.ext' <;> simp
+  have h1 : meshRowSheets r + (⟨0, 0, 0⟩ : V3 ℝ) = meshRowSheets r := by apply V3.ext' <;> simp
+  cases f <;> cases h : inside (meshId r) r.obs <;>
+    simp [bhjmTrimeshRow, wrapH, h, zero3, n, h0, h1]
+
+theorem trimesh_is_wrapH_of_sheets {M : Type} [DecidableEq M] (f : Field) (meshId : MeshRow ℝ → M)
+    (inside : M → V3 ℝ → Bool) (rows : List (MeshRow ℝ)) :
+    bhjmTrimesh f meshId inside rows =
+      rows.map fun r => wrapH f (inside (meshId r) r.obs) r.pol (meshRowSheets r) := by
+  rw [bhjmTrimesh_rowwise]
+  exact List.map_congr_left fun r _ => trimesh_row_is_wrapH_of_sheets f meshId inside r
+
 
 /-- `point_inside` of the Tetrahedron gives the same answer for either order of the last two
 vertices (the barycentric coordinates `(λ1, λ2, λ3)` become `(λ1, λ3, λ2)`): the body is the same
 set however its vertices are listed -/
+-- (audit) for coplanar vertices (det = 0) the inside test answers "outside" everywhere (repo fix 657dea6: `regular = det != 0`;
+-- before it the real-number model divided by 0 and answered "inside" everywhere); witness:
+example : tetraInside (⟨0,0,0⟩ : V3 ℝ) ⟨1,0,0⟩ ⟨2,0,0⟩ ⟨3,0,0⟩ ⟨5,5,5⟩ = false := by simp [tetraInside, det3, n]
 theorem tetraInside_swap_invariant (v0 v1 v2 v3 x : V3 ℝ) :
     tetraInside v0 v1 v3 v2 x = tetraInside v0 v1 v2 v3 x :=
   tetraInside_swap mu0R v0 v1 v2 v3 x
@@ -107,6 +137,9 @@ open MagpyVerif MagpyVerif.Kern MagpyVerif.Kern.CylSeg
 `BHJM_cylinder_segment_internal` returns Cylinder(diameter 2·r2, height h) minus — for a hollow ring, `r1 ≠ 0` —
 Cylinder(diameter 2·r1, height h), for every field and observer; the segment formulas are not evaluated.
 (`none`: a `cel0` call of the Cylinder kernel failed.) -/
+-- (audit) `full_ring_is_cylinder_difference` / `partial_ring_is_segment` unfold the `if` of `BHJM_cylinder_segment_internal`
+-- (`none = none` included): they say that the object-oriented wrapper BYPASSES the segment formulas at 360°, not that the
+-- segment closed form at 360° equals the Cylinder closed form (that identity between closed forms is oracle only).
 theorem full_ring_is_cylinder_difference (μ : ℝ) (S : SegSpecial) (fuel : Nat) (f : Field) (x : V3 ℝ)
     (r1 r2 h p1 p2 : ℝ) (pol : V3 ℝ) (hfull : 360 ≤ p2 - p1) :
     @bhjmCylSegInternal ℝ (realNumX μ S) fuel f x r1 r2 h p1 p2 pol =
@@ -134,6 +167,7 @@ open MagpyVerif MagpyVerif.Kern MagpyVerif.Kern.CylSeg
 arctan(k·tan(φ/2)) periodically — describing the same angle one full turn further adds exactly π, for every k and
 every φ, including the odd multiples of π where `np.round` meets a tie (ties-to-even: the number of full periods
 then jumps by 0 or 2, and both values come from the `phi_red / 2` branch) -/
+-- (audit) helper only: no theorem derives `bhjmCylSeg … (φ₁+360) (φ₂+360) = bhjmCylSeg … φ₁ φ₂` from it
 theorem arctan_k_tan_2_periodic_continuation (μ : ℝ) (S : SegSpecial) (k φ : ℝ) :
     @arctan_k_tan_2 ℝ (realNumX μ S) k (φ + 2 * Real.pi) = @arctan_k_tan_2 ℝ (realNumX μ S) k φ + Real.pi :=
   arctan_k_tan_2_add_two_pi μ S k φ
